@@ -4,7 +4,7 @@ From BV Require Import Base.Prelude Model.Block Model.ForkDB Model.Forkable Spec
   Spec.C01_Spec Spec.C01_Moving_Spec Proofs.C02_Proofs.
 Local Open Scope N_scope.
 
-(* partial: exclusive starting LIB coherent with the history, no injected handler failure
+(* partial: exclusive starting LIB coherent with the history, any handler oracle
    (c01_full in Spec/C01_Spec.v is the full statement) *)
 Theorem c01_moving_lib_partial : c01_moving_lib_statement.
 Proof. exact c01_moving_lib_proved. Qed.
@@ -20,6 +20,8 @@ Definition mv_hist : list block :=
     mkBlock 13 17 11 17; mkBlock 14 18 13 17; mkBlock 15 18 13 17; mkBlock 16 19 15 18; mkBlock 2 11 1 10; mkBlock 14 18 13 17 ].
 Definition mv_cfg (kept : N) (alltrig : bool) : config :=
   mkCfg 0 false false kept alltrig (mkFilter true true true true) None.
+(* the handler fails at its 12th call: inside the second reorganisation *)
+Definition mv_cfg_fail : config := mkCfg 0 false false 1 false (mkFilter true true true true) (Some 11).
 
 Example c01_moving_nonvacuous :
   moving_scope_b mv_r0 mv_hist = true /\
@@ -28,5 +30,7 @@ Example c01_moving_nonvacuous :
       [(SUndo, 5); (SUndo, 4); (SNew, 3); (SNew, 6); (SNew, 11); (SIrr, 3); (SStalled, 4)]; [];
       [(SNew, 13); (SIrr, 6); (SIrr, 11); (SIrr, 13); (SStalled, 5); (SStalled, 9); (SStalled, 12)];
       [(SNew, 14)]; []; [(SUndo, 14); (SNew, 15); (SNew, 16); (SIrr, 15); (SStalled, 14)]; []; [] ] /\
-  existsb (fun e => step_eqb (estep e) SUndo) (all_events (fk_run (mv_cfg 2 true) (fs_init (LExcl mv_r0)) mv_hist)) = true.
+  existsb (fun e => step_eqb (estep e) SUndo) (all_events (fk_run (mv_cfg 2 true) (fs_init (LExcl mv_r0)) mv_hist)) = true /\
+  map (fun x => (map (fun e => (estep e, bid (eblk e))) (fst x), snd x)) (skipn 8 (fk_run mv_cfg_fail (fs_init (LExcl mv_r0)) mv_hist)) =
+    [ ([(SUndo, 5); (SUndo, 4); (SNew, 3); (SNew, 6); (SNew, 11); (SIrr, 3)], RHandlerErr) ].
 Proof. vm_compute. auto. Qed.
